@@ -188,7 +188,7 @@ Theorem C07_source_shape_round3 :
   forallb (fun s => match s with (_, _, class) => per_call class end) parser_value_sites = true /\
   forallb (fun s => match s with (_, _, class) => per_call class end) listener_sites = true /\
   retrieved_decl = "local of Parse"%string /\
-  List.length file_index_shape = 5%nat /\
+  List.length file_index_shape = 6%nat /\
   List.length parse_map_ranges = 22%nat /\
   forallb (fun g => match g with (_, _, class) => String.eqb class "init-only" end) dep_globals = true.
 Proof.
